@@ -174,6 +174,7 @@ def best_rigid_fit(P, Q):
 # ------------------------------------------------------------------------------------------------ stress generators
 CELLS['upper'] = np.array([[19., 4.0, 0], [0, 20., 3.0], [0, 0, 22.]])                              # triclinic, tilt ABOVE the diagonal (not LAMMPS-oriented)
 CELLS['ortho-dec'] = np.array([[25., 0, 0], [0, 21., 0], [0, 0, 17.]])                              # orthorhombic with a > b > c
+CELLS['tri-dec'] = np.array([[25., 0, 0], [3.0, 21., 0], [-2.0, 2.5, 17.]])                          # triclinic with heights a > b > c
 CELLS['lefty'] = np.array([[2.0, 19., 1.0], [20., -3.0, 0.5], [1.5, 2.0, 21.]])                  # left-handed triclinic cell (det < 0), not aligned with any axis
 CELLS['rhombo'] = np.array([[20., 0, 0], [10., 17.3205, 0], [10., 5.7735, 16.3299]])          # 60 degree angles
 CELLS['rhombo-'] = np.array([[20., 0, 0], [-8., 18.0, 0], [-7., -6.0, 17.0]])                  # all tilts negative
